@@ -4,6 +4,7 @@ import (
 	"encoding/json"
 	"fmt"
 	"os"
+	"runtime"
 	"strings"
 	"time"
 	"unicode/utf8"
@@ -69,6 +70,26 @@ func compileOn(input string, o *comp.Options, d *Disk) comp.Result {
 	Mount(d)
 	lim := limitsFor(input)
 	res := comp.Compile(input, o, lim, nil)
+	if res.Leaked > 0 {
+		// goroutines outlived the call (possible only when the tree has go statements). One
+		// lazily started helper is bounded; a leak per call is not: the same call is repeated
+		// and counts only if the number of live goroutines grows with every repetition.
+		const reps = 24
+		before := runtime.NumGoroutine()
+		for i := 0; i < reps; i++ {
+			comp.Compile(input, o, lim, nil)
+		}
+		n := runtime.NumGoroutine()
+		for i := 0; i < 15 && n >= before+reps; i++ {
+			time.Sleep(10 * time.Millisecond)
+			n = runtime.NumGoroutine()
+		}
+		if n >= before+reps {
+			res.Leaked = (n - before) / reps
+		} else {
+			res.Leaked = 0
+		}
+	}
 	Mount(nil)
 	return res
 }
@@ -80,6 +101,12 @@ func unaryOracle(input string, o *comp.Options, res *comp.Result) (string, strin
 	}
 	if res.Budget == "ticks" {
 		return "hang", fmt.Sprintf("no answer within %d loop iterations for an input of %d bytes", res.Ticks, len(input))
+	}
+	if res.Budget == "deadlock" {
+		return "hang", fmt.Sprintf("the call never returns for an input of %d bytes: no loop iteration for 2 s and the calling goroutine is parked on a channel or sync primitive (deadlock among the compiler's goroutines)", len(input))
+	}
+	if res.Leaked > 0 {
+		return "unbounded-growth", fmt.Sprintf("every compilation of this input leaves %d goroutine(s) behind that never finish (confirmed over 24 repetitions)", res.Leaked)
 	}
 	if res.Budget == "depth" {
 		return "runaway-recursion", fmt.Sprintf("recursion depth passed %d for an input of %d bytes", res.MaxDepth, len(input))
@@ -321,6 +348,8 @@ func FaultWorker(pm *Params) (*Stats, []*Failure) {
 	defer func() { transp.close(); transp = nil }()
 	for i := pm.From; i < pm.Count; i += pm.Stride {
 		fr := &faultRun{pm: pm, st: st, run: i, seed: rng.RunSeed(pm.VerifSeed, "C18", i), digest: &Digest{}}
+		beginRun(pm, i)
+		comp.SchedSeed = rng.Sub(fr.seed, "sched")
 		fr.exec()
 		st.Runs++
 		total.Add(fr.digest.Hex())
@@ -628,6 +657,15 @@ func (fr *faultRun) exec() {
 			"script S { switch (var(A)) { case " + n1 + ": case " + n2 + ": case -" + n2 + ": x } }",
 			"script S { if (var(A) > value(" + n1 + " * (" + n2 + " + (1)))) { x } }",
 		}[fr2.Intn(16)]
+		if fr2.P(0.12) {
+			// several scripts that each fail at EMISSION (a user label named like a generated
+			// sub-label of its script): the answer must still be ONE located error
+			var sb strings.Builder
+			for i, k := 0, fr2.Range(2, 6); i < k; i++ {
+				fmt.Fprintf(&sb, "script S%d { S%d_%d: if (flag(A)) { x } elif (var(B) == 2) { y } else { z } w }\n", i, i, fr2.Range(1, 3))
+			}
+			corner = sb.String()
+		}
 		if fr2.P(0.15) {
 			// a chain of constants each defined as two copies of the previous one
 			depth := fr2.Range(8, 24)
